@@ -182,7 +182,12 @@ def build(stack):
         import types as _types
         return _types.MappingProxyType({'b': 'kb', 'own': 1})     # a read-only mapping as render context
     from clastic.utils import Redirector
-    routes = [('/rdr', Redirector('/resp?b=kb', code=302)), ('/ctxfrozen', ep_ctxfrozen, render_any), ('/textchunks', ep_textchunks), ('/noctype', ep_noctype), ('/nocontent', ep_204),
+    from clastic import Route, middleware as _M
+
+    def ep_ctxown():
+        return {'own': 1}
+    routes = [Route('/ctxroute', ep_ctxown, render_any, middlewares=[_M.ContextProcessor(defaults={'route_default': 'rd'})]),
+              ('/rdr', Redirector('/resp?b=kb', code=302)), ('/ctxfrozen', ep_ctxfrozen, render_any), ('/textchunks', ep_textchunks), ('/noctype', ep_noctype), ('/nocontent', ep_204),
               ('/ctxlist', ep_ctxlist, render_any), ('/ctxstr', ep_ctxstr, render_any),
               ('/resp', ep_resp), ('/ctx', ep_ctx, render), ('/stream', ep_stream), ('/deflated', ep_deflated), ('/redir', ep_redir),
               ('/branch/', ep_resp),
@@ -220,6 +225,8 @@ def request_catalogue():
         out.append((lbl + '@msie', pth, 'GET', 'b=binary' if 'binary' in lbl else 'b=kb', b''))
     out.append(('nocontent', '/nocontent', 'GET', '', b''))
     out.append(('ctxlist', '/ctxlist', 'GET', '', b''))
+    # a route that carries a configured ContextProcessor of its own (see check_stack for the stacks it applies to)
+    out.append(('ctxroute', '/ctxroute', 'GET', '', b''))
     out.append(('ctxstr', '/ctxstr', 'GET', '', b''))
     out.append(('post', '/post', 'POST', '', b'p=1&n=abc'))
     out.append(('post-num', '/post', 'POST', '', b'p=&n=12'))
@@ -314,6 +321,9 @@ def check_stack(acc, stack, baseline_app, cache):
             aes = AE if (rlabel.startswith('resp-') or rlabel.startswith('ctx-') or rlabel.endswith('@msie') or rlabel in ('raise4', 'ret4', 'fallthrough', 'stream', 'deflated', 'redirector')) else AE[:3]
             if q and not rlabel.startswith('resp-k'):
                 aes = aes[:2]
+            if rlabel == 'ctxroute' and ('ctxproc' in stack or 'ctxdefaults' in stack):
+                # an application-level middleware of the very same (unique) type replaces the route's: the merge rule
+                continue
             for ae in aes:
                 key = (rlabel, query, ae)
                 base = cache.get(key)
@@ -360,6 +370,13 @@ def check_stack(acc, stack, baseline_app, cache):
                         bad('gzip-vary', 'Vary %r lacks Accept-Encoding' % res.header('Vary'))
                         continue
                 else:
+                    if 'gzip' in stack and accepts_gzip(ae) and res.code == 200 and base.code == 200 and method == 'GET' \
+                            and hasattr(res, 'header') and (rlabel in ('stream', 'textchunks', 'deflated') or rlabel.startswith('resp-') or rlabel.startswith('ctx-')) \
+                            and 'accept-encoding' not in (res.header('Vary') or '').lower():
+                        # the client accepts gzip and got the identity coding of a representation that has (or may
+                        # have) a gzip variant: caches must be told the choice depends on Accept-Encoding
+                        bad('vary-missing', 'client accepts gzip, response not compressed, Vary %r lacks Accept-Encoding' % res.header('Vary'))
+                        continue
                     cl = res.header('Content-Length')
                     if cl is not None and method != 'HEAD' and int(cl) != len(raw):
                         bad('content-length', 'Content-Length %r but %d bytes sent' % (cl, len(raw)))
